@@ -112,6 +112,25 @@ theorem wp_ite {α : Type} {c : Prop} [Decidable c] {a b : Res α} {Q : α → P
   · exact ht ‹_›
   · exact he ‹_›
 
+/-! conditions that compare RUNES (`switch r { case 'a', 'o': … }`) never matter for a bounds check: the two arms are
+proved without the hypothesis (this keeps the contexts of the 40-arm switches small) -/
+
+theorem wp_bind_ite_beq32 {α β : Type} {x y : BitVec 32} {a b : Res α} {f : α → Res β} {Q : β → Prop}
+    (ht : wp (a >>= f) Q) (he : wp (b >>= f) Q) : wp ((if (x == y) = true then a else b) >>= f) Q := by
+  split <;> assumption
+
+theorem wp_bind_ite_or32 {α β : Type} {z : Bool} {x y : BitVec 32} {a b : Res α} {f : α → Res β} {Q : β → Prop}
+    (ht : wp (a >>= f) Q) (he : wp (b >>= f) Q) : wp ((if (z || x == y) = true then a else b) >>= f) Q := by
+  split <;> assumption
+
+theorem wp_ite_beq32 {α : Type} {x y : BitVec 32} {a b : Res α} {Q : α → Prop}
+    (ht : wp a Q) (he : wp b Q) : wp (if (x == y) = true then a else b) Q := by
+  split <;> assumption
+
+theorem wp_ite_or32 {α : Type} {z : Bool} {x y : BitVec 32} {a b : Res α} {Q : α → Prop}
+    (ht : wp a Q) (he : wp b Q) : wp (if (z || x == y) = true then a else b) Q := by
+  split <;> assumption
+
 /-- a merge point with an intermediate assertion chosen by hand (`refine wp_bind_cut (P := …) ?_ ?_`) is
 `wp_bind_cut`; this is the same for a conditional whose two arms are proved separately -/
 theorem wp_ite_cut {α β : Type} {c : Prop} [Decidable c] {a b : Res α} {f : α → Res β} {P : α → Prop} {Q : β → Prop}
@@ -244,20 +263,12 @@ syntax "wp_call" : tactic
 macro_rules | `(tactic| wp_call) => `(tactic| fail "wp_call: no rule applies")
 
 syntax "wp_go" : tactic
+syntax "wp_go_merge" : tactic
 syntax "bv_len" : tactic
 
-/-- a merge point `let xs ← if c then … else pure xs`: prove the arm completely (it has to end within `K` of
-`xs`), continue once. Tried for K = 0 … 7 before the general rule (which proves the rest once per arm). -/
-syntax "wp_merge " num : tactic
-macro_rules
-  | `(tactic| wp_merge $k) => `(tactic| first
-      | (with_reducible refine wp_bind_ite_trim $k (fun _ => ?_) (fun _ _ _ => ?_)
-         · (wp_go; all_goals bv_len))
-      | (with_reducible refine wp_bind_ite_trim2 $k (fun _ => ?_) (fun _ _ _ => ?_)
-         · (wp_go; all_goals bv_len)))
-
-/-- one step of the verification-condition generator -/
-macro "wp_step" : tactic => `(tactic| first
+/-- one step of the verification-condition generator (every rule except the ones for a conditional in
+sequence position, which `wp_go` and `wp_go_merge` treat differently) -/
+macro "wp_step0" : tactic => `(tactic| first
   | with_reducible refine wp_bind_pure ?_
   | with_reducible refine wp_bind_assoc ?_
   | with_reducible refine wp_bind_getIdx ?_ (fun _ => ?_)
@@ -268,18 +279,42 @@ macro "wp_step" : tactic => `(tactic| first
   | with_reducible refine wp_bind_and (fun _ => ?_) (fun _ _ => ?_)
   | with_reducible refine wp_bind_or (fun _ => ?_) (fun _ _ => ?_)
   | wp_call
-  | wp_merge 0 | wp_merge 1 | wp_merge 2 | wp_merge 3 | wp_merge 4 | wp_merge 5 | wp_merge 6 | wp_merge 7
-  | with_reducible refine wp_bind_ite (fun _ => ?_) (fun _ => ?_)
+  | with_reducible refine wp_ite_beq32 ?_ ?_
+  | with_reducible refine wp_ite_or32 ?_ ?_
   | with_reducible refine wp_ite (fun _ => ?_) (fun _ => ?_)
   | with_reducible refine wp_match_option (fun _ _ => ?_) (fun _ => ?_)
   | with_reducible refine wp_getIdx ?_ (fun _ => ?_)
   | with_reducible refine wp_slice ?_ (fun _ _ => ?_)
   | with_reducible refine wp_setIdx ?_ (fun _ _ => ?_)
   | with_reducible refine wp_copyInto ?_ (fun _ _ => ?_)
-  | with_reducible refine wp_pure_intro ?_
-  | dsimp only)
+  | with_reducible refine wp_pure_intro ?_)
 
-macro_rules | `(tactic| wp_go) => `(tactic| repeat' wp_step)
+/-- a conditional in sequence position, the precise way: the rest of the code is proved once per arm -/
+macro "wp_split" : tactic => `(tactic| first
+  | with_reducible refine wp_bind_ite_beq32 ?_ ?_
+  | with_reducible refine wp_bind_ite_or32 ?_ ?_
+  | with_reducible refine wp_bind_ite (fun _ => ?_) (fun _ => ?_))
+
+/-- a merge point `let xs ← if c then … else pure xs`: prove the arm completely (it has to end within `K` of
+`xs`), continue once with a list that is at most `K` shorter. Loses which arm was taken. -/
+syntax "wp_merge " num : tactic
+macro_rules
+  | `(tactic| wp_merge $k) => `(tactic| first
+      | (with_reducible refine wp_bind_ite_trim $k (fun _ => ?_) (fun _ _ _ => ?_)
+         · (wp_go_merge; all_goals bv_len))
+      | (with_reducible refine wp_bind_ite_trim2 $k (fun _ => ?_) (fun _ _ _ => ?_)
+         · (wp_go_merge; all_goals bv_len)))
+
+/-- run the verification-condition generator; conditionals in sequence position are split (2ⁿ paths after n of
+them: meant for loop bodies and short functions) -/
+macro_rules | `(tactic| wp_go) => `(tactic| repeat' (first | wp_step0 | wp_split | dsimp only))
+
+/-- the same with merge points summarised by `Trim` (K = 0 … 7) where that works: for the long straight-line
+suffix strippers -/
+macro_rules | `(tactic| wp_go_merge) => `(tactic| repeat' (first
+  | wp_step0
+  | wp_merge 0 | wp_merge 1 | wp_merge 2 | wp_merge 3 | wp_merge 4 | wp_merge 5 | wp_merge 6 | wp_merge 7
+  | wp_split | dsimp only))
 
 /-- bounds checks: boolean guards propagated, signed comparisons and lengths to `Nat`, then `bv_omega` -/
 macro_rules | `(tactic| bv_len) => `(tactic| (
